@@ -323,6 +323,10 @@ package locate
 //@       regionErr.FlashbackInProgress == nil && regionErr.FlashbackNotPrepared == nil && regionErr.RegionNotFound == nil && regionErr.KeyNotInRegion == nil && regionErr.EpochNotMatch == nil &&
 //@       regionErr.BucketVersionNotMatch == nil && regionErr.ServerIsBusy == nil && regionErr.StaleCommand != nil && s.replicaSelector == nil && old(s.Stats) == nil && shouldRetry && err == nil ==>
 //@       bo.backoffTimes[staleCmdKind()] == old(bo.backoffTimes[staleCmdKind()]) + 1
+// Without a replica selector nothing counts attempts: a NotLeader answer is retried only after a region-scheduling
+// back-off, whether or not it carries a leader hint (with a selector the step is onNotLeader's, below).
+//@   ensures notleader: regionErr.UndeterminedResult == nil && regionErr.NotLeader != nil && s.replicaSelector == nil && old(s.Stats) == nil && shouldRetry ==>
+//@       bo.backoffTimes[regionSchedulingKind()] == old(bo.backoffTimes[regionSchedulingKind()]) + 1
 
 // A NotLeader answer is retried for free only by following its leader hint to a peer that still has attempts left or has
 // not itself answered NotLeader to this request: when the hint names a peer that already did and has used up its attempts
